@@ -341,8 +341,8 @@ def units(tier, seed):
             us.append(Unit('%s_%gx%g' % (kind, L, W), make_fn(kind, L, W, rng=rng), make_replay(kind, L, W, rng), setup, F,
                            '%s generator, land %g x %g m concrete; b_min all reals in [%g,%g], b_max_x, b_max_y all reals in [b_min,%g], at least three rows at the maximum spacing'
                            % (kind, L, W, rng[0], rng[1], rng[2]), AS, max_seconds=2400 if tier == 'thorough' else 700, timeout_ms=60000))
-    for L in sorted({l for l, _ in lots}):
-        nrng = (4.0, 25.0, 25.0) if tier == 'quick' else (2.0, 25.0, 25.0)
+    for L in sorted({l for l, _ in lots if l <= 100.0}):
+        nrng = (4.0, 25.0, 25.0) if tier == 'quick' else (3.0, 25.0, 25.0)      # the number of count regions (and the grid sizes) grow with L/b: 120 m at 2 m did not finish in 25 min
         us.append(Unit('near_square_%g' % L, make_fn('near_square', L, L, rng=nrng), make_replay('near_square', L, L, nrng), setup, F,
                        'near-square design, side %g m concrete, spacing b all reals in [%g, min(25, side)]' % (L, nrng[0]), AS, max_seconds=1500))
     us.append(Unit('fp_kernel', fp_kernel_fn(3, 120 if tier == 'quick' else 400), None, None, [],
